@@ -365,6 +365,27 @@ func genC13Cases(env *Env, r *Rand, n int, full bool) []Case {
 			}
 		}
 	}
+	// operand lists of three whose members disagree about the width (r8 / r16 / r32 / small and large immediates / unsized and sized
+	// memory), in every order, for the mnemonics that have a handler of their own: size inference between operands must settle
+	tk := []string{"AL", "CX", "EDX", "5", "0x12345", "[BX]", "DWORD [EBX+8]"}
+	if full {
+		tk = append(tk, "ES", "BYTE [SI+4]", "deflabel", "CR0")
+	}
+	for mi, mode := range []string{"", "[BITS 32]\n"} {
+		if mi == 1 && !full {
+			break
+		}
+		for _, op := range []string{"ADC", "ADD", "AND", "CALL", "CMP", "DEC", "DIV", "IDIV", "IMUL", "IN", "INC", "INT", "JMP", "JE", "LGDT", "MOV", "MUL", "NEG", "NOT", "OR", "OUT", "POP", "PUSH", "RET",
+			"SAR", "SBB", "SHL", "SHR", "SUB", "XOR", "ENTER", "TEST", "XCHG"} {
+			for _, a := range tk {
+				for _, b := range tk {
+					for _, c := range tk {
+						add("mixed-width-triple", mode+wrap("\t"+op+" "+a+","+b+","+c))
+					}
+				}
+			}
+		}
+	}
 	// text/template syntax reaching pass 2 through operands that are forwarded as text
 	for _, mode := range []string{"", "[BITS 32]\n"} {
 		for _, op := range ops {
@@ -576,7 +597,7 @@ func init() {
 		}
 		// the known deep-nesting crash, under its own signature
 		cases = append(cases, &CrashCase{Src: familySource("nested-parens", 100000), Family: "deep-nesting"})
-		rep.Rule = "hostile inputs: every mnemonic of the grammar's Opcode rule (read from the tree) with 0-4 operands of every operand kind (registers of every class, immediates, strings, sized/unsized memory, defined/undefined labels and EQUs, seg:off, templates, malformed brackets) in both modes; numbers beyond 64 bits and 2^32 multiples in every numeric position; unknown and malformed directives, EQU cycles, text/template syntax; random byte strings (raw, printable, Shift_JIS/UTF-8 looking); token soup; token- and line-level mutations of valid programs; " +
+		rep.Rule = "hostile inputs: every mnemonic of the grammar's Opcode rule (read from the tree) with 0-4 operands of every operand kind (registers of every class, immediates, strings, sized/unsized memory, defined/undefined labels and EQUs, seg:off, templates, malformed brackets) in both modes; all ordered triples over operands of different widths (r8/r16/r32, small and large immediates, unsized and DWORD memory; thorough also sreg, BYTE memory, a label, CR0) for the 33 mnemonics with handlers of their own; numbers beyond 64 bits and 2^32 multiples in every numeric position; unknown and malformed directives, EQU cycles, text/template syntax; random byte strings (raw, printable, Shift_JIS/UTF-8 looking); token soup; token- and line-level mutations of valid programs; " +
 			"size families to 10^5 tokens. Monitors: worker liveness (panic value, fatal error, signal), parser virtual time (pigeon expression count at doubling sizes: a ratio >= 16 on two successive doublings is a violation), CPU time of the whole pipeline at doubling sizes in one worker (a ratio >= 7 on two successive doublings with at least 2 s is a violation; absolute times are not judged), per-request CPU-time budget of 60 s + 1 ms per input byte, watchdog. non-trivial = input ran to an outcome (output, parse error or diagnosed exit); distinct = (family, outcome class) cells"
 		outs := RunCases(env, cases)
 		fam := map[string]any{}
